@@ -14,6 +14,8 @@ try:
 except AttributeError:
     pass
 
+import os as _os
+ONE_PERIOD = _os.environ.get('VERIF_ONE_PERIOD', '1') == '1'
 _intern = {}
 _next_uid = [1]
 
@@ -30,6 +32,7 @@ def _uid(key):
 class Ctx:
     """per-path interval refinements: uid -> (lo, hi)"""
     refine = {}
+    pc = None
 
 
 def set_ctx(refine):
@@ -260,7 +263,7 @@ def divc(a, c):
     alo, ahi = iv(a)
     if alo is not None and ahi is not None and alo // c == ahi // c:
         return alo // c
-    if alo is not None and ahi is not None and alo // c + 1 == ahi // c and len(a.terms) > 1:
+    if ONE_PERIOD and c <= (1 << 32) and alo is not None and ahi is not None and alo // c + 1 == ahi // c and len(a.terms) > 1:
         # the value crosses exactly one multiple of c: a case split is friendlier to the solvers than a div atom
         q = alo // c
         return ite(lt(a, c * (q + 1)), q, q + 1)
@@ -318,7 +321,7 @@ def modc(a, c):
     alo, ahi = iv(a)
     if alo is not None and ahi is not None and alo // c == ahi // c:
         return sub(a, (alo // c) * c)
-    if alo is not None and ahi is not None and alo // c + 1 == ahi // c and len(a.terms) > 1:
+    if ONE_PERIOD and c <= (1 << 32) and alo is not None and ahi is not None and alo // c + 1 == ahi // c and len(a.terms) > 1:
         q = alo // c
         return ite(lt(a, c * (q + 1)), sub(a, c * q), sub(a, c * (q + 1)))
     A, B = _split(a, c)
@@ -572,7 +575,14 @@ def ite(c, a, b):
     if isinstance(a, int) and isinstance(b, int) and a == b:
         return a
     if not isinstance(a, int) and not isinstance(b, int) and a.uid == b.uid:
-        return a
+        # same term; the two objects may carry intervals that are only valid on their own path
+        lo, hi = _union((a.lo, a.hi), (b.lo, b.hi))
+        if (lo, hi) == (a.lo, a.hi):
+            return a
+        L = Lin()
+        L.terms, L.c, L.uid, L.core, L.gs = a.terms, a.c, a.uid, a.core, a.gs
+        L.lo, L.hi = lo, hi
+        return L
     ua = ('c', a) if isinstance(a, int) else a.uid
     ub = ('c', b) if isinstance(b, int) else b.uid
     lo, hi = _union(iv(a), iv(b))
@@ -931,3 +941,63 @@ def to_smt(assertions, want_model=True):
         head.append('(set-option :produce-models true)')
     text = '\n'.join(head + e.lines + ['(check-sat)'])
     return text, e
+
+
+# ---------------------------------------------------------------- shadow evaluation (self-check of the normaliser)
+SHADOW = None      # a model (dict name -> value): every constructor result is compared with concrete evaluation
+SHADOW_ERRORS = []
+
+
+def _shadow_wrap(name, fn, ref):
+    def wrapped(*args):
+        r = fn(*args)
+        if SHADOW is not None:
+            try:
+                memo = {}
+                if Ctx.pc is not None and not all(eval_bool(b, SHADOW, memo) for b in Ctx.pc):
+                    return r
+                vals = [eval_bool(a, SHADOW, memo) if isinstance(a, (bool, B)) else (eval_int(a, SHADOW, memo) if isinstance(a, (int, Lin)) else a) for a in args]
+                want = ref(*vals)
+                got = eval_bool(r, SHADOW, memo) if isinstance(r, (bool, B)) else eval_int(r, SHADOW, memo)
+                if want != got and len(SHADOW_ERRORS) < 20:
+                    SHADOW_ERRORS.append((name, [repr(a) for a in args], vals, want, got))
+                if isinstance(r, Lin) and len(SHADOW_ERRORS) < 20:
+                    lo, hi = r.iv()
+                    if (lo is not None and got < lo) or (hi is not None and got > hi):
+                        SHADOW_ERRORS.append(('interval:' + name, [repr(a) for a in args], vals, (lo, hi), got))
+            except Exception as e:  # noqa
+                pass
+        return r
+    return wrapped
+
+
+def enable_shadow(model):
+    """wrap the public constructors; only used by debugging / self-test runs"""
+    global SHADOW, divc, modc, wrap, add, sub, mulc, mul, tdivc, tmodc, le, lt, eq, and_mask, or_, ite
+    SHADOW = model
+    g = globals()
+    if g.get('_shadow_on'):
+        return
+    g['_shadow_on'] = True
+
+    def _wrapref(t, bits, signed):
+        m = 1 << bits
+        if signed:
+            return ((t + (m >> 1)) % m) - (m >> 1)
+        return t % m
+
+    def _tdiv(a, c):
+        q = abs(a) // abs(c)
+        return q if (a >= 0) == (c > 0) else -q
+    divc = _shadow_wrap('divc', divc, lambda a, c: a // c)
+    modc = _shadow_wrap('modc', modc, lambda a, c: a % c)
+    wrap = _shadow_wrap('wrap', wrap, _wrapref)
+    add = _shadow_wrap('add', add, lambda a, b: a + b)
+    mulc = _shadow_wrap('mulc', mulc, lambda a, k: a * k)
+    mul = _shadow_wrap('mul', mul, lambda a, b: a * b)
+    tdivc = _shadow_wrap('tdivc', tdivc, _tdiv)
+    le = _shadow_wrap('le', le, lambda a, b: a <= b)
+    lt = _shadow_wrap('lt', lt, lambda a, b: a < b)
+    eq = _shadow_wrap('eq', eq, lambda a, b: a == b)
+    and_mask = _shadow_wrap('and_mask', and_mask, lambda t, m, bits=64: t & m)
+    or_ = _shadow_wrap('or_', or_, lambda a, b, bits=64: a | b)
